@@ -473,6 +473,13 @@ pub fn generate(case_seed: u64, focus: TxFocus, max_total: usize) -> TxCfg {
         start_delay: 0,
         end: if rng.chance(0.5) { WriterEnd::Hold } else { WriterEnd::Shutdown },
     };
+    // size probes with no / more retransmissions of their own (default 1)
+    {
+        let mut a = Prng::new(case_seed ^ 0x9B0B_E5);
+        if a.chance(0.4) {
+            sock.mtu_probe_max_retransmissions = Some(a.below(3) as usize);
+        }
+    }
     // the write half dropped right after the last write (the tail may still be buffered)
     if Prng::new(case_seed ^ 0xD20F_E2D).chance(0.3) {
         writer.end = WriterEnd::Drop;
@@ -507,7 +514,24 @@ pub fn generate(case_seed: u64, focus: TxFocus, max_total: usize) -> TxCfg {
                 3 | 4 => WindowMode::ZeroThenOpen { open: rng.range(2 * mss as u64, 30 * mss as u64) as u32, after: rng.range(1, 40) as u32, closed_for: rng.range(50, 3000) * MS },
                 _ => WindowMode::Shrink { from: rng.range(10 * mss as u64, 60 * mss as u64) as u32, by: rng.range(1, mss as u64) as u32, to: *rng.pick(&[0u32, mss, 2 * mss]) },
             };
-            if rng.chance(0.3) {
+            let mut aux = Prng::new(case_seed ^ 0x71_6877);
+            if aux.chance(0.3) {
+                // losses under a window that stays the binding limit (the congestion window outgrows
+                // it on a long transfer): recovery, and the sending right after it, against a tight window
+                policy.sack_capable = aux.chance(0.8);
+                policy.lose_first = *aux.pick(&[0.03, 0.08, 0.15, 0.25]);
+                if aux.chance(0.5) {
+                    policy.ack = AckMode::Immediate;
+                }
+                policy.window = if aux.chance(0.5) {
+                    WindowMode::Const(aux.range(3, 12) as u32 * mss + aux.below(mss as u64) as u32)
+                } else {
+                    WindowMode::Walk { lo: 3 * mss, hi: aux.range(5, 14) as u32 * mss, step: aux.range(1, 2 * mss as u64) as u32 }
+                };
+                total = total.max(aux.range(40_000, 150_000) as usize).min(max_total);
+                writer.pause_prob = 0.0;
+                writer.chunk = (1, 65536);
+            } else if rng.chance(0.3) {
                 policy.lose_first = *rng.pick(&[0.02, 0.1]);
             } else if rng.chance(0.4) {
                 // reordering only: no loss event ever, the slow-start bound stays in force throughout
